@@ -5,6 +5,7 @@ import flowpaths.utils as utils
 import flowpaths.nodeexpandeddigraph as nedg
 import copy
 import math
+import numbers
 
 
 class kMinPathError(pathmodel.AbstractPathModelDAG):
@@ -231,7 +232,7 @@ class kMinPathError(pathmodel.AbstractPathModelDAG):
             self.k = self.G.get_width(list(self.edges_to_ignore))
         self.original_k = self.k
         # k is replaced by the size of the weight superset below: it is checked here, as the caller gave it
-        if not isinstance(self.k, int) or self.k <= 0:
+        if not isinstance(self.k, numbers.Integral) or self.k <= 0:
             utils.logger.error(f"{__name__}: k must be a positive integer, not {self.k}")
             raise ValueError(f"k must be a positive integer, not {self.k}")
         self.solution_weights_superset = solution_weights_superset
